@@ -15,6 +15,10 @@ def replay_roundtrip(msgs, enc, blocked, cfg, many=None, closes=1):
             w.write_many([dict(m) for m in ms])
         elif many == 'generator':
             w.write_many(dict(m) for m in ms)
+        elif many == 'batch-then-write':
+            w.write_many([dict(ms[0])])
+            for m in ms[1:]:
+                w.write(dict(m))
         else:
             for m in ms:
                 w.write(dict(m))
